@@ -1,12 +1,12 @@
 \* permission code = act*54 + type*9 + org*3 + id ; act: read=0 write=1 ; type: authorizations=0 buckets=1 orgs=2 users=3 tasks=4 instance=5
-\* grants: {} | read buckets org1 (12) | write buckets org1 (66) | read bucket id1 (10) | read buckets org2 (15) | write instance (99) | read buckets type-wide (9) | read buckets org1 + read org 1 (12,19)
+\* grants: {} | read buckets org1 (12) | write buckets org1 (66) | read bucket id1 (10) | read buckets org2 (15) | write instance (99) | read buckets type-wide (9) | read buckets org1 + read org 1 (12,19) | read+write buckets org1 (12,66) | read buckets org1 + write instance (12,99) | read bucket id1 + write buckets org1 (10,66)
 \* AuthPairs: org*10+user
 SPECIFICATION Spec
 CONSTANTS
   CallerMode = "explicit"
   Callers = {{66,102,90},{99},{63,84,12},{57,85,9}}
   CallerActive = {TRUE, FALSE}
-  Grants = {{}, {12}, {66}, {10}, {15}, {99}}
+  Grants = {{}, {12}, {66}, {10}, {15}, {99}, {12,66}, {12,99}, {10,66}}
   AuthPairs = {11,21,12}
   MaxOps = 4
   StopAtFailure = FALSE
